@@ -28,6 +28,7 @@ func init() {
 			{Name: "empty entries are not reported", File: "kernel/multiboot/multiboot.go", Old: "\t\tif !visitor(entry) {\n\t\t\treturn\n\t\t}\n", New: "\t\tif entry.Length != 0 && !visitor(entry) {\n\t\t\treturn\n\t\t}\n", Expect: "C10.R1"},
 			{Name: "string table header read before the section loop", File: "kernel/multiboot/multiboot.go", Old: "\tfor secIndex := uint16(0); secIndex < ptrElfSections.numSections;", New: "\tif strTableSection.address == 0 {\n\t\treturn\n\t}\n\tfor secIndex := uint16(0); secIndex < ptrElfSections.numSections;", Expect: "C10.R5"},
 			{Name: "> re-introduced (F3)", File: "kernel/multiboot/multiboot.go", Old: "if entry.Type == 0 || entry.Type >= memUnknown {", New: "if entry.Type == 0 || entry.Type > memUnknown {", Expect: "C10.R1"},
+			{Name: "a fifth region type defined (seed C10-12)", File: "kernel/multiboot/multiboot.go", Old: "\t// Any value >= memUnknown will be mapped to MemReserved.\n\tmemUnknown\n", New: "\t// MemBadRAM indicates defective RAM.\n\tMemBadRAM\n\n\t// Any value >= memUnknown will be mapped to MemReserved.\n\tmemUnknown\n", Expect: "C10.R1 defined-set"},
 			{Name: "stride from the Go struct size", File: "kernel/multiboot/multiboot.go", Old: "curPtr += uintptr(ptrMapHeader.entrySize)", New: "curPtr += unsafe.Sizeof(MemoryMapEntry{})\n\t\t_ = ptrMapHeader", Expect: "C10.R2"},
 			{Name: "last match wins", File: "kernel/multiboot/multiboot.go",
 				Old: "\t\tif ptrTagHeader.tagType == tagType {\n\t\t\treturn curPtr + 8, ptrTagHeader.size - 8\n\t\t}\n\n\t\t// Tags are aligned at 8-byte aligned addresses\n\t\tcurPtr += uintptr(int32(ptrTagHeader.size+7) & ^7)\n\t}\n\n\treturn 0, 0\n}",
@@ -144,6 +145,22 @@ func runC10(c *Ctx) {
 			v, _ := constUint64(nc.Value)
 			defined[v] = name
 		}
+	}
+	// The defined set is part of the property's reference, not something the
+	// code under analysis may redefine: the four region types of the pinned
+	// tree, values 1..4. A fifth exported constant makes one more raw value
+	// pass through to the visitors unchanged.
+	{
+		var extra []string
+		for v, name := range defined {
+			if v < 1 || v > 4 {
+				extra = append(extra, fmt.Sprintf("%s = %d", name, v))
+			}
+		}
+		sort.Strings(extra)
+		c.check(len(extra) == 0 && len(defined) == 4, "C10.R1", "defined-set multiboot.MemoryEntryType",
+			"the defined region types are the four values 1..4 (available, reserved, ACPI reclaimable, NVS)",
+			fmt.Sprintf("the set of defined region types is no longer the values 1..4 (%d exported constants; outside: %s): a raw type that the property counts as undefined reaches the visitors unchanged instead of as reserved", len(defined), strings.Join(extra, ", ")), m.pos(entryT.Obj().Pos()))
 	}
 	reservedV, okr := namedConstUint(m, mb, "MemReserved")
 	g := newIG(m, visitMem, nil)
